@@ -1,7 +1,61 @@
+#![allow(dead_code)]
+mod acc;
+mod checks;
+mod explore;
+mod findings;
+mod gen;
+mod imp;
 mod model;
+mod replay;
+mod selftest;
+
+fn usage() -> ! {
+    eprintln!("usage: jpmc check <C01..C15> <quick|thorough> | jpmc replay <file> | jpmc selftest | jpmc p <query>");
+    std::process::exit(2)
+}
+
 fn main() {
     let a: Vec<String> = std::env::args().collect();
-    if a.len() > 2 && a[1] == "p" {
-        println!("{:?}", model::parse::rfc_parse(&a[2]));
+    if a.len() < 2 {
+        usage();
+    }
+    match a[1].as_str() {
+        "p" if a.len() > 2 => {
+            println!("{:?}", model::parse::rfc_parse(&a[2]));
+        }
+        "replay" if a.len() > 2 => {
+            imp::quiet_panics();
+            std::process::exit(replay::replay(&a[2]));
+        }
+        "selftest" => {
+            std::process::exit(selftest::run(true));
+        }
+        "check" if a.len() > 3 => {
+            if selftest::run(false) != 0 {
+                eprintln!("MACHINERY: oracle self-test failed");
+                std::process::exit(2);
+            }
+            imp::quiet_panics();
+            let tier = a[3].as_str();
+            if tier != "quick" && tier != "thorough" {
+                usage();
+            }
+            // every check runs on a thread with the main thread's default stack size so depth results are reproducible
+            let prop = a[2].clone();
+            let tier = tier.to_string();
+            let h = std::thread::Builder::new()
+                .stack_size(64 << 20)
+                .spawn(move || match prop.as_str() {
+                    "C01" | "C02" | "C03" => checks::nodelist::run(&prop, &tier),
+                    _ => {
+                        eprintln!("no check for {}", prop);
+                        2
+                    }
+                })
+                .unwrap();
+            let code = h.join().unwrap_or(2);
+            std::process::exit(code);
+        }
+        _ => usage(),
     }
 }
